@@ -167,11 +167,15 @@ func parseRule(s string) *hotspot.Rule {
 	}
 	switch p[1] {
 	case "c":
+		// DurationInSec is legal and ignored for a Concurrency rule; 1 like the QPS rules of this op language, so that a
+		// reload that only switches the MetricType keeps every field IsStatReusable looks at apart from the MetricType
 		r.MetricType = hotspot.Concurrency
+		r.DurationInSec = 1
 	case "ct":
 		// legal and documented as irrelevant: ControlBehavior of a Concurrency rule
 		r.MetricType = hotspot.Concurrency
 		r.ControlBehavior = hotspot.Throttling
+		r.DurationInSec = 1
 	case "q":
 		// a QPS rule that never blocks within a case (the clock does not move): C05 is about those
 		r.MetricType = hotspot.QPS
@@ -231,12 +235,21 @@ func doEntry(t []string) (*base.SentinelEntry, string) {
 	}
 	var opts []sentinel.EntryOption
 	if batch >= 0 {
-		opts = append(opts, sentinel.WithBatchCount(uint32(batch)))
+		// the two spellings of the batch count, and two options no slot of this chain reads
+		if batch%2 == 1 {
+			opts = append(opts, sentinel.WithAcquireCount(uint32(batch)), sentinel.WithFlag(int32(batch)))
+		} else {
+			opts = append(opts, sentinel.WithBatchCount(uint32(batch)), sentinel.WithResourceType(base.ResTypeWeb))
+		}
 	}
 	if len(args) > 0 {
 		opts = append(opts, sentinel.WithArgs(args...))
 	}
-	if atts != nil {
+	if len(atts) == 1 {
+		for k, v := range atts {
+			opts = append(opts, sentinel.WithAttachment(k, v))
+		}
+	} else if atts != nil {
 		opts = append(opts, sentinel.WithAttachments(atts))
 	}
 	e, b := sentinel.Entry(res, opts...)
@@ -256,7 +269,9 @@ func doEntry(t []string) (*base.SentinelEntry, string) {
 // decided, the admitted ones exit; then a sequential probe admits entries for the value until the first refusal (at most
 // g+8) and exits them. Returns the least / greatest number of entries the probe admitted over all rounds: on correct
 // code the cells are back at 0 after the exits whatever the schedule, so this is one fixed number.
-func (it *Interp) storm(res, kind string, g, rounds int) string {
+// With x2 the admitted entries are exited by the workers, every entry by two of them at the same moment (Exit must be
+// idempotent under overlap: exactly one of the two calls releases the unit).
+func (it *Interp) storm(res, kind string, g, rounds int, x2 bool) string {
 	it.stormNo++
 	procs := runtime.NumCPU()
 	if procs > 16 {
@@ -272,8 +287,16 @@ func (it *Interp) storm(res, kind string, g, rounds int) string {
 	probe := make([]*base.SentinelEntry, 0, g+8)
 	// g persistent workers; a round starts for all of them at once when `gen` reaches its number (they spin on it, so
 	// that the calls really overlap), and is over when `decided` has counted g more decisions
-	var gen, decided int64
+	var gen, decided, xgen, exited int64
+	var stop int32
 	var cur interface{}
+	// wall-clock budget (real time): on an overloaded machine the spinning barriers get slow; the observation does not
+	// depend on how many rounds were run, so the op simply ends early (0.4 ms per round asked for, at least 1 s)
+	budget := time.Duration(rounds) * 400 * time.Microsecond
+	if budget < time.Second {
+		budget = time.Second
+	}
+	deadline := time.Now().Add(budget)
 	yield := procs <= g
 	var wg sync.WaitGroup
 	wg.Add(g)
@@ -282,17 +305,38 @@ func (it *Interp) storm(res, kind string, g, rounds int) string {
 			defer wg.Done()
 			for r := int64(1); r <= int64(rounds); r++ {
 				for n := 0; atomic.LoadInt64(&gen) < r; n++ {
-					if yield || n&255 == 255 {
+					if atomic.LoadInt32(&stop) != 0 {
+						return
+					}
+					if yield || n&31 == 31 {
 						runtime.Gosched()
 					}
 				}
 				e, _ := sentinel.Entry(res, sentinel.WithArgs(cur))
 				got[i] = e
 				atomic.AddInt64(&decided, 1)
+				if x2 {
+					for n := 0; atomic.LoadInt64(&xgen) < r; n++ {
+						if yield || n&31 == 31 {
+							runtime.Gosched()
+						}
+					}
+					// worker i and worker i-1 both exit entry i
+					if e := got[i]; e != nil {
+						e.Exit()
+					}
+					if e := got[(i+1)%g]; e != nil {
+						e.Exit()
+					}
+					atomic.AddInt64(&exited, 1)
+				}
 			}
 		}(i)
 	}
 	for r := 1; r <= rounds; r++ {
+		if r&15 == 0 && time.Now().After(deadline) {
+			break
+		}
 		var v interface{}
 		if kind == "s" {
 			v = "w" + strconv.Itoa(it.stormNo) + "_" + strconv.Itoa(r)
@@ -302,14 +346,26 @@ func (it *Interp) storm(res, kind string, g, rounds int) string {
 		cur = v
 		atomic.StoreInt64(&gen, int64(r))
 		for n := 0; atomic.LoadInt64(&decided) < int64(r)*int64(g); n++ {
-			if yield || n&255 == 255 {
+			if yield || n&31 == 31 {
 				runtime.Gosched()
 			}
 		}
-		for i, e := range got {
-			if e != nil {
-				e.Exit()
+		if x2 {
+			atomic.StoreInt64(&xgen, int64(r))
+			for n := 0; atomic.LoadInt64(&exited) < int64(r)*int64(g); n++ {
+				if yield || n&31 == 31 {
+					runtime.Gosched()
+				}
+			}
+			for i := range got {
 				got[i] = nil
+			}
+		} else {
+			for i, e := range got {
+				if e != nil {
+					e.Exit()
+					got[i] = nil
+				}
 			}
 		}
 		probe = probe[:0]
@@ -324,6 +380,7 @@ func (it *Interp) storm(res, kind string, g, rounds int) string {
 		for _, e := range probe {
 			e.Exit()
 		}
+		atomic.AddUint64(&it.steps, 1) // progress for the watchdog: a round, not the whole op, must end within its patience
 		if lo < 0 || n < lo {
 			lo = n
 		}
@@ -331,6 +388,7 @@ func (it *Interp) storm(res, kind string, g, rounds int) string {
 			hi = n
 		}
 	}
+	atomic.StoreInt32(&stop, 1)
 	wg.Wait()
 	return fmt.Sprintf("lo=%d hi=%d", lo, hi)
 }
@@ -376,7 +434,7 @@ func (it *Interp) Step(t []string, op string) string {
 		}
 		return ""
 	case "storm":
-		return it.storm(t[1], t[2], int(vh.U(t[3])), int(vh.U(t[4])))
+		return it.storm(t[1], t[2], int(vh.U(t[3])), int(vh.U(t[4])), len(t) > 5 && t[5] == "x2")
 	case "reloadres":
 		rules := make([]*hotspot.Rule, 0, len(t)-2)
 		for _, s := range t[2:] {
